@@ -400,6 +400,118 @@ func TestC17(t *testing.T) {
 	c.Exhaustive("72-byte boundary: lengths 66..80 x 3 NUL variants x change position 64..len (this shard)", n)
 	c17GrammarTables(c, t)
 	c17CostField(c, t, haveClib)
+	c17FieldFill(c, t)
+}
+
+// c17FieldFill fills each field of the hash grammar (version characters, cost
+// digits, the 22 salt characters, the 31 digest characters) - entirely, as a
+// prefix, as a suffix, at alternating positions and all but one position -
+// with characters from classes that text decoders tend to treat specially
+// (line breaks, padding, white space, NUL, separators, high-bit bytes, the
+// characters of other base-64 alphabets).  Cost and CompareHashAndPassword
+// must not panic; a string with a damaged cost, salt or digest must not verify
+// unless it is canonical and the reference says it is the hash of the password.
+func c17FieldFill(c *ev.Collector, t *testing.T) {
+	fatal := func(format string, args ...any) {
+		what := fmt.Sprintf(format, args...)
+		c.Violation(what, "")
+		t.Fatalf("VF-VIOLATION: property=C17 %s", what)
+	}
+	classes := []struct {
+		name  string
+		chars []byte
+	}{
+		{"CR", []byte{'\r'}}, {"LF", []byte{'\n'}}, {"CRLF", []byte{'\r', '\n'}}, {"pad=", []byte{'='}}, {"space", []byte{' '}}, {"TAB", []byte{'\t'}},
+		{"NUL", []byte{0}}, {"dot", []byte{'.'}}, {"slash", []byte{'/'}}, {"dollar", []byte{'$'}}, {"high-0x80", []byte{0x80}}, {"high-0xff", []byte{0xff}},
+		{"plus", []byte{'+'}}, {"minus", []byte{'-'}}, {"underscore", []byte{'_'}}, {"mixed-ws", []byte{'\n', ' ', '\r', '\t'}},
+	}
+	patterns := []string{"whole", "prefix-half", "suffix-half", "even-positions", "odd-positions", "all-but-first", "all-but-last"}
+	pws := [][]byte{[]byte("field fill"), {}, bytes.Repeat([]byte("x"), 55), bytes.Repeat([]byte("y"), 60)}
+	idx, n := 0, 0
+	for _, form := range []string{"$2a$", "$2$", "$2y$"} {
+		valid := form + refkdf.Bcrypt(pws[0], detBytes("c17.fill.salt", len(form), 16), 4, 'a')[4:]
+		co := len(form)
+		fields := []struct {
+			name     string
+			from, to int
+			mustFail bool
+		}{
+			{"version", 1, co - 1, false}, // the package accepts any major <= '2' and any minor byte: only totality is asserted
+			{"cost", co, co + 2, false},   // strconv.Atoi leniency ("+4" is 4) is the package's documented-by-behaviour parser; Cost() failing while Compare verifies is still flagged
+			{"salt", co + 3, co + 25, true},
+			{"digest", co + 25, len(valid), true},
+			{"salt+digest", co + 3, len(valid), true},
+		}
+		for _, f := range fields {
+			for _, cl := range classes {
+				for _, pat := range patterns {
+					idx++
+					if !ev.Mine(idx) {
+						continue
+					}
+					c17Mem = idx
+					h := []byte(valid)
+					w := f.to - f.from
+					for i := 0; i < w; i++ {
+						hit := false
+						switch pat {
+						case "whole":
+							hit = true
+						case "prefix-half":
+							hit = i < (w+1)/2
+						case "suffix-half":
+							hit = i >= w/2
+						case "even-positions":
+							hit = i%2 == 0
+						case "odd-positions":
+							hit = i%2 == 1
+						case "all-but-first":
+							hit = i > 0
+						default:
+							hit = i < w-1
+						}
+						if hit {
+							h[f.from+i] = cl.chars[i%len(cl.chars)]
+						}
+					}
+					if bytes.Equal(h, []byte(valid)) {
+						continue
+					}
+					pw := pws[idx%len(pws)]
+					cost, cerr, pan := c17Cost(h)
+					if pan != nil {
+						fatal("field fill (%s of %s with %s): Cost(%q): %v", pat, f.name, cl.name, h, pan)
+					}
+					verdict := "cost-error"
+					if cerr != nil || cost <= 7 {
+						err, pan := c17Compare(h, pw)
+						if pan != nil {
+							fatal("field fill (%s of %s with %s): CompareHashAndPassword(%q, %d-byte password): %v", pat, f.name, cl.name, h, len(pw), pan)
+						}
+						if cerr != nil && err == nil {
+							fatal("field fill: Cost(%q) fails (%v) but CompareHashAndPassword verifies", h, cerr)
+						}
+						if _, pc, s, digest, ok := c17StrictParse(h); ok && len(pw) < 72 {
+							want := refkdf.BcryptRaw(append(append([]byte{}, pw...), 0), s, uint(pc))
+							if same := bytes.Equal(want[:23], digest); same != (err == nil) {
+								fatal("field fill: CompareHashAndPassword(%q, %q) = %v but the reference says match=%v", h, pw, err, same)
+							}
+						} else if f.mustFail && err == nil {
+							fatal("field fill (%s of %s with %s): CompareHashAndPassword(%q, %q) verifies a damaged hash", pat, f.name, cl.name, h, pw)
+						}
+						if cerr == nil {
+							verdict = map[bool]string{true: "verified", false: "rejected"}[err == nil]
+						}
+					} else {
+						verdict = "skipped-high-cost"
+					}
+					c.Case(true, fmt.Sprintf("fill|%s|%s|%s|%s|%d", form, f.name, cl.name, pat, idx%len(pws)), "fill:field="+f.name, "fill:class="+cl.name, "fill:pattern="+pat, "malformed-verdict:"+verdict)
+					n++
+				}
+			}
+		}
+	}
+	c.Exhaustive("hash fields (version, cost, salt, digest, salt+digest) x 16 character classes x 7 fill patterns x 3 version forms, 4 candidate password lengths rotated (this shard)", n)
 }
 
 // c17CostField covers the cost dimension value by value.  (a) Parse level:
